@@ -81,7 +81,7 @@ def schema_sx(nodes):
 class SchemaGen:
     """Builds valid Avro schemas as node vectors (root = node 0)."""
     def __init__(self, rng, max_nodes=12, max_depth=4, namespaces=("", "ns", "ns.sub"), logical=True,
-                 names_pool=None):
+                 names_pool=None, ref_prob=0.2):
         self.rng = rng
         self.nodes = []
         self.named = []          # indices of named nodes available for reference
@@ -91,6 +91,7 @@ class SchemaGen:
         self.namespaces = namespaces
         self.logical = logical
         self.open_records = []   # records being defined (referencing them unconditionally is a cycle)
+        self.ref_prob = ref_prob
 
     def fresh_name(self, prefix):
         self.counter += 1
@@ -110,7 +111,7 @@ class SchemaGen:
         """returns the key of a node for this position (new or a reference to a named node)"""
         rng = self.rng
         # reference to an existing named type
-        if self.named and rng.random() < 0.2:
+        if self.named and rng.random() < self.ref_prob:
             cands = [k for k in self.named
                      if (conditional or k not in self.open_records) and self.branch_kind(k) not in exclude_kinds]
             if cands:
